@@ -11,7 +11,8 @@
 //! answers true iff the watcher had not yet seen the last write `missed-reload`, and the poll after
 //! that answers false `spurious-true`; `reloaded_global` is true at most once per write
 //! `global-too-many`, a value read after it said true is at least as new as the number of times it
-//! said true `stale-after-global`, after the joins it has said true at least once `global-missed`
+//! said true `stale-after-global`, after the joins it says true if nobody asked since the writes `global-missed` (judged only when no
+//! other thread swaps the flag concurrently, see the comment in `body`)
 //! and then says false `global-spurious`; the reload id starts at NEVER `initial-id` and after the
 //! joins equals the number of writes (by ordering and by Debug text) `final-id`.
 use crate::entry::probe::{raw, rid, watcher_stored};
@@ -202,8 +203,13 @@ fn body(n: usize, pollers: &[Poller]) {
     if global_trues > n {
         fail!("global-too-many", "reloaded_global() said true {global_trues} times for {n} writes");
     }
-    if n > 0 && global_trues == 0 {
-        fail!("global-missed", "{n} writes completed but reloaded_global() never said true (final call: {fin})");
+    // loom keeps the modification order of an atomic as a *partial* order: a plain `store(true)` of
+    // the writer that races with another thread's `swap(false)` may be placed before that swap even
+    // though the swap did not read it (real hardware / C11 forbid this: RMW atomicity).  "The flag is
+    // still set after the joins" is therefore only judged when no other thread swaps concurrently.
+    let racing_swaps = pollers.iter().any(|p| matches!(p, Poller::Global(_) | Poller::Both(_)));
+    if n > 0 && !racing_swaps && !fin {
+        fail!("global-missed", "{n} writes completed, nobody asked in between, but reloaded_global() says false");
     }
     if poll_global("main", h, Some(u), &mut t) {
         fail!("global-spurious", "reloaded_global() true twice in a row with no write in between");
